@@ -78,6 +78,18 @@ class Engine(BaseEngine):
             for p in perms:
                 text = J.render_event(rng, e, order=list(p), plain=True).encode()
                 out.append(self.case("orders", text, ev_size(e), 0xAA))
+        # the smallest events there are: one-digit kind and created_at, no tags, empty content, no whitespace, nothing after
+        # the closing brace (333 bytes), in random member orders; and the same with 1-2 more bytes
+        for i in range(40 if tier == "quick" else 600):
+            e = rand_event(rng)
+            e["kind"], e["created"] = rng.randrange(10), rng.randrange(10)
+            e["tags"], e["content"] = [], rng.choice(["", "", "", "a", "ab"])
+            if i % 5 == 4:
+                e["kind"] = rng.choice([10, 99])
+            order = NAMES[:]
+            rng.shuffle(order)
+            text = J.render_event(rng, e, order=order, plain=True).encode()
+            out.append(self.case("minimal-%d" % min(len(text), 336), text, ev_size(e) + rng.choice([0, 8]), rng.choice(fills)))
         # integer boundaries
         for kind in (0, 65535, 65536, 10 ** 10, 4294967296 + 1):
             for created in (0, 1 << 63, (1 << 64) - 1, 1 << 64, 10 ** 19, 10 ** 20):
